@@ -186,33 +186,42 @@ func (m *UnboundedFairMailbox) Enqueue(msg *ReceiveContext) error {
 // Single consumer
 // - Must be called by exactly one goroutine (the actor’s receiver loop).
 func (m *UnboundedFairMailbox) Dequeue() (msg *ReceiveContext) {
-	sq := m.active.dequeue()
-	if sq == nil {
-		return nil
-	}
-
-	msg = sq.mailbox.Dequeue()
-	if msg == nil {
-		// The per-sender queue looks empty: either it was drained, or an
-		// enqueue is still in flight ahead of completed ones (the sub-queue
-		// publishes a node only once its predecessor has linked it). Mark the
-		// sender inactive, then look again: a producer that linked its node
-		// before this point found the sender still active and did not
-		// re-activate it, so without the second look the sender would never be
-		// served again and the mailbox would report non-empty while Dequeue
-		// returns nil forever. A producer that links later re-activates the
-		// sender itself (see Enqueue).
-		sq.active.Store(false)
-		if !sq.mailbox.IsEmpty() && sq.active.CompareAndSwap(false, true) {
-			m.active.enqueue(sq)
+	for {
+		sq := m.active.dequeue()
+		if sq == nil {
+			return nil
 		}
+
+		msg = sq.mailbox.Dequeue()
+		if msg == nil {
+			// The per-sender queue looks empty: either it was drained, or an
+			// enqueue is still in flight ahead of completed ones (the sub-queue
+			// publishes a node only once its predecessor has linked it). Mark the
+			// sender inactive, then look again: a producer that linked its node
+			// before this point found the sender still active and did not
+			// re-activate it, so without the second look the sender would never be
+			// served again and the mailbox would report non-empty while Dequeue
+			// returns nil forever. A producer that links later re-activates the
+			// sender itself (see Enqueue).
+			sq.active.Store(false)
+			if !sq.mailbox.IsEmpty() && sq.active.CompareAndSwap(false, true) {
+				m.active.enqueue(sq)
+			}
+
+			// This entry of the active list may have been stale: a producer
+			// activates the sender after publishing its message, and by then
+			// the consumer may already have served that message through an
+			// earlier activation. An empty sub-queue says nothing about the
+			// other senders, so move on to the next active one instead of
+			// reporting an empty mailbox while their messages are waiting.
+			continue
+		}
+
+		atomic.AddInt64(&m.length, -1)
+		remaining := atomic.AddInt64(&sq.pending, -1)
+		m.finalizeSender(sq, remaining)
 		return
 	}
-
-	atomic.AddInt64(&m.length, -1)
-	remaining := atomic.AddInt64(&sq.pending, -1)
-	m.finalizeSender(sq, remaining)
-	return
 }
 
 func (m *UnboundedFairMailbox) finalizeSender(sq *senderBox, remaining int64) {
